@@ -950,6 +950,47 @@ theorem denAttrs_zipNT : ∀ (names : List (List Nat)) (pts : List PT) (vs : Lis
           have hstar : n ≠ [42] := hn.1.2
           simp [zipNT, PT.denAttrs, hname, hp, ih ps vs' hn.2 hps, Lit.zipAttrs, hstar]
 
+theorem reprAttrs_names : ∀ (as : List (List Nat × Rep)), (as.all (fun a => a.1.all isScalar)) = true →
+    (reprAttrs as).filterMap (fun p => parseName p.1) = as.map Prod.fst := by
+  intro as
+  induction as with
+  | nil => intro _; rfl
+  | cons a r ih =>
+    obtain ⟨n, v⟩ := a
+    intro h
+    simp only [List.all_cons, Bool.and_eq_true] at h
+    have hname : parseName (tupleNameRepr n) = some n :=
+      parseName_tupleNameRepr n (by intro c hc; exact (List.all_eq_true.1 h.1) c hc)
+    simp [reprAttrs, hname, ih h.2]
+
+theorem prAttrs_scalar : ∀ (as : List (List Nat × Rep)), Rep.prAttrs as = true →
+    (as.all (fun a => a.1.all isScalar)) = true := by
+  intro as
+  induction as with
+  | nil => intro _; rfl
+  | cons a r ih =>
+    obtain ⟨n, v⟩ := a
+    intro h
+    simp only [Rep.prAttrs, Bool.and_eq_true] at h
+    simp [h.1.1.1, ih h.2]
+
+theorem zipNT_names : ∀ (names : List (List Nat)) (pts : List PT),
+    (names.all (fun n => n.all isScalar && decide (n ≠ [42]))) = true → pts.length = names.length →
+    (zipNT names pts).filterMap (fun p => parseName p.1) = names := by
+  intro names
+  induction names with
+  | nil => intro pts _ _; cases pts <;> simp [zipNT]
+  | cons n ns ih =>
+    intro pts hn hl
+    cases pts with
+    | nil => simp at hl
+    | cons p ps =>
+      simp only [List.all_cons, Bool.and_eq_true] at hn
+      have hname : parseName (tupleNameRepr n) = some n :=
+        parseName_tupleNameRepr n (by intro c hc; exact (List.all_eq_true.1 hn.1.1) c hc)
+      simp only [List.length_cons, Nat.add_right_cancel_iff] at hl
+      simp [zipNT, hname, ih ps hn.2 hl]
+
 mutual
 theorem den_repr (r : Rep) (h : r.printable = true) : (Impl.repr r).den = some r.den := by
   cases r with
@@ -988,15 +1029,16 @@ theorem den_repr (r : Rep) (h : r.printable = true) : (Impl.repr r).den = some r
     have ih := denList_repr xs h
     simp [Impl.repr, PT.den, ih, Rep.den]
   | tup as =>
-    simp only [Rep.printable] at h
-    have ih := denAttrs_repr as h
-    simp [Impl.repr, PT.den, ih, Rep.den]
+    simp only [Rep.printable, Bool.and_eq_true, Bool.not_eq_true'] at h
+    have ih := denAttrs_repr as h.2
+    have hn := reprAttrs_names as (prAttrs_scalar as h.2)
+    simp [Impl.repr, PT.den, ih, Rep.den, hn, h.1]
   | rel names rows =>
-    simp only [Rep.printable, Bool.and_eq_true] at h
+    simp only [Rep.printable, Bool.and_eq_true, Bool.not_eq_true'] at h
     by_cases hid : names.all isIdent = true
     · have ih := denRows_repr names rows h.2
       simp [Impl.repr, hid, PT.den, ih, Rep.den]
-    · have ih := denRowTups_repr names rows h.1 h.2
+    · have ih := denRowTups_repr names rows h.1.1 h.1.2 h.2
       simp only [Impl.repr, hid, Bool.false_eq_true, if_false, PT.den, ih, Option.map_some, Rep.den]
   | tt => rfl
 theorem denOpts_repr (xs : List (Option Rep)) (h : Rep.prOpts xs = true) :
@@ -1044,7 +1086,7 @@ theorem denRows_repr (names : List (List Nat)) (rows : List (List Rep)) (h : Rep
   | cons row r =>
     simp only [Rep.prRows, Bool.and_eq_true, decide_eq_true_eq] at h
     simp [reprRows, PT.denRows, Rep.denRows, denList_repr row h.1.2, denRows_repr names r h.2, length_denList, h.1.1]
-theorem denRowTups_repr (names : List (List Nat)) (rows : List (List Rep))
+theorem denRowTups_repr (names : List (List Nat)) (rows : List (List Rep)) (ha : ampPair names = false)
     (hn : (names.all (fun n => n.all isScalar && decide (n ≠ [42]))) = true) (h : Rep.prRows names.length rows = true) :
     PT.denList (reprRowTups names rows) = some (Rep.denRows names rows) := by
   cases rows with
@@ -1052,7 +1094,8 @@ theorem denRowTups_repr (names : List (List Nat)) (rows : List (List Rep))
   | cons row r =>
     simp only [Rep.prRows, Bool.and_eq_true, decide_eq_true_eq] at h
     have h1 := denAttrs_zipNT names (reprList row) (Rep.denList row) hn (denList_repr row h.1.2)
-    simp [reprRowTups, PT.denList, PT.den, Rep.denRows, h1, denRowTups_repr names r hn h.2]
+    have h2 := zipNT_names names (reprList row) hn (by rw [length_reprList]; exact h.1.1)
+    simp [reprRowTups, PT.denList, PT.den, Rep.denRows, h1, h2, ha, denRowTups_repr names r ha hn h.2]
 end
 
 end Arrai.C12
